@@ -8,7 +8,7 @@ Import ListNotations.
 Open Scope N_scope.
 
 Definition is_space (c : N) : bool := mem_N c ws_chars.   (* chr(c).isspace() *)
-Definition is_sep (c : N) : bool := mem_N c sep_chars.    (* str.splitlines breaks at c *)
+Definition is_sep (c : N) : bool := mem_N c sep_chars.    (* directives.split_lines breaks at c *)
 
 Definition c_nl : N := 10.
 Definition c_cr : N := 13.
@@ -20,7 +20,8 @@ Definition nl : str := [c_nl].
 
 Definition nonempty {A} (l : list A) : bool := match l with [] => false | _ => true end.
 
-(* ---- str.splitlines(): breaks at every separator, "\r\n" counts once, no trailing "" ---- *)
+(* ---- directives.split_lines(text) (commit 620bbcf; before: str.splitlines()): breaks at every separator
+   (CR, LF - the set comes from Gen/C08Unicode.v), "\r\n" counts once, no trailing "" ---- *)
 Definition cons_first (c : N) (ls : list str) : list str :=
   match ls with [] => [[c]] | l :: ls' => (c :: l) :: ls' end.
 
